@@ -1,1 +1,139 @@
-//! (stub; see lib.rs for the owner)
+//! Thin wrappers over the reference SRTP implementation (`webrtc-srtp` 0.17.2, the webrtc-rs
+//! port of pion/srtp) used as an *extra oracle* at model-generated steps (C04/C05). It is never
+//! the generator of scenarios. Owner: SRTP checks.
+//!
+//! Facts about the reference that callers must respect (read from its source):
+//! * one `Context` is one direction (encrypt only or decrypt only);
+//! * no NULL-cipher profile: `RefProfile::from_name` returns `None` for it;
+//! * its ROC estimate follows the *last accepted* packet (not the highest), so it is only a valid
+//!   oracle for a packet whose true index is within half the sequence space of the last packet
+//!   the same context processed; `RefSrtp` tracks that and exposes `in_domain`;
+//! * its RTP header parser panics / mis-sizes on non-canonical RFC 8285 extension blocks, so
+//!   every call is wrapped in `catch_unwind`; a panic is reported as `Err("panic: ..")` and is a
+//!   statement about the reference, not about rustrtc;
+//! * replay protection is off by default (`Context::new(.., None, None)`), like rustrtc.
+
+use std::collections::HashMap;
+use webrtc_srtp::context::Context;
+use webrtc_srtp::protection_profile::ProtectionProfile;
+
+#[derive(Clone, Copy, Debug, PartialEq, Eq)]
+pub enum RefProfile {
+    Aes128Sha1_80,
+    Aes128Sha1_32,
+    AeadAes128Gcm,
+}
+
+impl RefProfile {
+    /// Names used across the harness: "sha1_80", "sha1_32", "gcm", "null" (-> None).
+    pub fn from_name(name: &str) -> Option<Self> {
+        match name {
+            "sha1_80" => Some(Self::Aes128Sha1_80),
+            "sha1_32" => Some(Self::Aes128Sha1_32),
+            "gcm" => Some(Self::AeadAes128Gcm),
+            _ => None,
+        }
+    }
+    fn to_ref(self) -> ProtectionProfile {
+        match self {
+            Self::Aes128Sha1_80 => ProtectionProfile::Aes128CmHmacSha1_80,
+            Self::Aes128Sha1_32 => ProtectionProfile::Aes128CmHmacSha1_32,
+            Self::AeadAes128Gcm => ProtectionProfile::AeadAes128Gcm,
+        }
+    }
+    pub fn salt_len(self) -> usize {
+        self.to_ref().salt_len()
+    }
+}
+
+fn guard<T>(f: impl FnOnce() -> Result<T, String>) -> Result<T, String> {
+    match std::panic::catch_unwind(std::panic::AssertUnwindSafe(f)) {
+        Ok(r) => r,
+        Err(e) => {
+            let m = if let Some(s) = e.downcast_ref::<&str>() {
+                s.to_string()
+            } else if let Some(s) = e.downcast_ref::<String>() {
+                s.clone()
+            } else {
+                "?".to_string()
+            };
+            Err(format!("panic: {m}"))
+        }
+    }
+}
+
+/// One direction of the reference implementation plus the bookkeeping that says when its
+/// answer can be demanded.
+pub struct RefSrtp {
+    ctx: Context,
+    /// true index of the last RTP packet this context processed successfully, per SSRC
+    last_idx: HashMap<u32, i64>,
+}
+
+impl RefSrtp {
+    /// `salt` may be longer than the profile needs (rustrtc takes 14 bytes for every profile and
+    /// uses the first 12 for GCM); it is cut to the reference's length.
+    pub fn new(profile: RefProfile, key: &[u8], salt: &[u8]) -> Result<Self, String> {
+        let sl = profile.salt_len();
+        if salt.len() < sl || key.len() < 16 {
+            return Err("keying material too short".into());
+        }
+        let ctx = Context::new(&key[..16], &salt[..sl], profile.to_ref(), None, None)
+            .map_err(|e| e.to_string())?;
+        Ok(Self { ctx, last_idx: HashMap::new() })
+    }
+
+    /// Can the reference be expected to handle the packet of `ssrc` with true index `idx`
+    /// (48-bit, real scale) given what it processed before?
+    pub fn in_domain(&self, ssrc: u32, idx: i64) -> bool {
+        match self.last_idx.get(&ssrc) {
+            None => idx < 65536,
+            Some(&l) => (idx - l).abs() < 32768,
+        }
+    }
+
+    /// Protect a plaintext RTP packet (marshalled). `idx` is the true index the caller means.
+    pub fn protect_rtp(&mut self, plain: &[u8], ssrc: u32, idx: i64) -> Result<Vec<u8>, String> {
+        let ctx = &mut self.ctx;
+        let r = guard(|| ctx.encrypt_rtp(plain).map(|b| b.to_vec()).map_err(|e| e.to_string()));
+        if r.is_ok() {
+            self.last_idx.insert(ssrc, idx);
+        }
+        r
+    }
+
+    /// Unprotect an SRTP packet; returns the marshalled plaintext RTP packet.
+    pub fn unprotect_rtp(&mut self, enc: &[u8], ssrc: u32, idx: i64) -> Result<Vec<u8>, String> {
+        let ctx = &mut self.ctx;
+        let r = guard(|| ctx.decrypt_rtp(enc).map(|b| b.to_vec()).map_err(|e| e.to_string()));
+        if r.is_ok() {
+            self.last_idx.insert(ssrc, idx);
+        }
+        r
+    }
+
+    pub fn protect_rtcp(&mut self, plain: &[u8]) -> Result<Vec<u8>, String> {
+        let ctx = &mut self.ctx;
+        guard(|| ctx.encrypt_rtcp(plain).map(|b| b.to_vec()).map_err(|e| e.to_string()))
+    }
+
+    pub fn unprotect_rtcp(&mut self, enc: &[u8]) -> Result<Vec<u8>, String> {
+        let ctx = &mut self.ctx;
+        guard(|| ctx.decrypt_rtcp(enc).map(|b| b.to_vec()).map_err(|e| e.to_string()))
+    }
+}
+
+/// Is this plaintext RTP packet inside the reference's own domain (its header parser and its
+/// cipher agree on the header length and it round-trips its own output)? Checked with scratch
+/// contexts at ROC 0, so it speaks about the packet shape only.
+pub fn ref_accepts_shape(profile: RefProfile, plain: &[u8]) -> bool {
+    let key = [0x11u8; 16];
+    let salt = [0x22u8; 14];
+    let (Ok(mut a), Ok(mut b)) = (RefSrtp::new(profile, &key, &salt), RefSrtp::new(profile, &key, &salt)) else {
+        return false;
+    };
+    match a.protect_rtp(plain, 0, 0) {
+        Ok(enc) => matches!(b.unprotect_rtp(&enc, 0, 0), Ok(p) if p == plain),
+        Err(_) => false,
+    }
+}
